@@ -242,7 +242,7 @@ Section Top.
   Lemma imports_of_ok x d pk : pkgs_imports_ok x -> pkg_of fs d = Some pk -> imports_of pk = pk_imports pk.
   Proof.
     intros Hi Hd. unfold imports_of. destruct (pk_imports pk) as [im|] eqn:E; [|reflexivity].
-    destruct (Hi d pk im Hd E) as [Hn _]. rewrite (parse_root_some im Hn). reflexivity.
+    destruct (Hi d pk im Hd E) as [Hn _]. rewrite (parse_root_imports_some im Hn). reflexivity.
   Qed.
 
   (* loadPackageImports vs LOAD_PACKAGE_IMPORTS *)
@@ -256,15 +256,15 @@ Section Top.
     intros Hi Hr Hb Hpd Him. destruct (Hi _ _ _ Hpd Him) as [Hnn Hsc].
     unfold load_package_imports.
     assert (Hh : str_eqb x [ch_hash] = false).
-    { unfold in_scope_imports in Hsc. apply andb_true_iff in Hsc as [Hsc _]. apply andb_true_iff in Hsc as [Hsc _].
+    { unfold in_scope_imports in Hsc. apply andb_true_iff in Hsc as [Hsc _].
       apply andb_true_iff in Hsc as [_ Hs].
       apply negb_true_iff in Hs. unfold shape_hash_slash in Hs. apply orb_false_iff in Hs as [Hs _]. exact Hs. }
-    rewrite Hh, (parse_root_some im Hnn).
+    rewrite Hh, (parse_root_imports_some im Hnn).
     pose proof (imports_resolve_eq_partial_all im x (conds_of KRequire user) Hsc) as Heq.
     pose proof (imports_resolve_no_inexact im x (conds_of KRequire user) Hsc) as Hni.
     rewrite (node_imports_resolve_ext _ _ im x (conds_require_equiv user)) in Heq.
     pose proof (fun s => Hr _ _ _ s Hpd Him) as Hrm.
-    destruct (imports_resolve x (parse_top im) (conds_of KRequire user)) as [res st].
+    destruct (imports_resolve x (parse im) (conds_of KRequire user)) as [res st].
     destruct (node_imports_resolve x im (cjs_conds user)) as [u|s|e|]; cbn [coarse] in *.
     - assert (Hst : res = u /\ (st = SExact \/ st = SExactEndsWithStar)).
       { unfold outcome_of_model in Heq. cbn [fst snd] in *.
@@ -333,8 +333,9 @@ Section Top.
   Qed.
 End Top.
 
-(* ---- D13: a specifier without a valid package name inside a nameless package
-   that has "exports" is taken as a self reference by esbuild ---- *)
+(* ---- D13 was repaired in /repo (d8f247a): a specifier that has no valid package
+   name is never a self reference.  The former witness agrees, and such
+   specifiers are covered by a theorem of their own ---- *)
 Definition w_nameless_fs : fsmap :=
   [ (pw_ [], EDir (Some (mkPkg None None (Some (JObj [(s_ ".", JStr (s_ "./own.js"))])) None)));
     (pw_ ["own.js"], EFile);
@@ -342,12 +343,88 @@ Definition w_nameless_fs : fsmap :=
     (pw_ ["node_modules"; "@foo"], EDir None);
     (pw_ ["node_modules"; "@foo"; "index.js"], EFile) ].
 
-Lemma refuted_nameless_self_reference :
+Lemma fixed_nameless_self_reference :
   wf_fsb w_nameless_fs = true /\ no_tsb w_nameless_fs = true /\ no_case_collision w_nameless_fs = true
-  /\ bare_ok (s_ "@foo") = false
-  /\ resolve (fun _ => false) w_nameless_fs KRequire [] [] (s_ "@foo") = RFail
+  /\ package_name_spec (s_ "@foo") = None /\ plain_spec (s_ "@foo") = true
+  /\ resolve (fun _ => false) w_nameless_fs KRequire [] [] (s_ "@foo") = RFile (pw_ ["node_modules"; "@foo"; "index.js"])
   /\ require_resolve (fun _ => false) w_nameless_fs [] [] (s_ "@foo") = NFile (pw_ ["node_modules"; "@foo"; "index.js"]).
 Proof. repeat split; vm_compute; reflexivity. Qed.
+
+Section InvalidName.
+  Variable builtin : str -> bool.
+  Variable fs : fsmap.
+  Hypothesis Hwf : wf_fs fs.
+  Hypothesis Hts : no_ts_rewrite fs.
+  Variable user : list str.
+  Variable x : str.
+  Hypothesis Hnone : package_name_spec x = None.
+  Hypothesis Hplain : plain_spec x = true.
+
+  Lemma nm_walk_invalid : forall fuel dir,
+    agree (of_opt (nm_walk fs KRequire user fuel dir x)) (LOAD_NODE_MODULES fs (cjs_conds user) fuel x dir).
+  Proof.
+    assert (Htp : forall DIR, try_package fs KRequire user DIR x
+                  = match load_as_file_or_directory fs (join_rel DIR x) with
+                    | Some p => (Some p, true) | None => (None, false) end).
+    { intros DIR. unfold try_package, name_and_subpath. rewrite parse_package_name_eq_all, Hnone. reflexivity. }
+    induction fuel as [|f IH]; intros dir; cbn [nm_walk LOAD_NODE_MODULES].
+    all: unfold LOAD_PACKAGE_EXPORTS; rewrite Hnone.
+    all: destruct (str_eqb (base_name dir) node_modules_s) eqn:Enm; cbn [negb andb fst snd].
+    all: try (destruct dir; [reflexivity| first [apply IH | reflexivity]]).
+    all: destruct (isdir fs (dir ++ [node_modules_s])) eqn:Ed.
+    all: try (rewrite Htp, (load_as_file_or_directory_eq fs Hwf Hts); unfold LOAD_FILE_OR_DIR;
+              destruct (LOAD_AS_FILE fs (join_rel (dir ++ [node_modules_s]) x)); [reflexivity|];
+              destruct (LOAD_AS_DIRECTORY fs (join_rel (dir ++ [node_modules_s]) x)); [reflexivity|];
+              cbn [fst snd]; destruct dir; [reflexivity| first [apply IH | reflexivity]]).
+    all: rewrite (join_rel_plain _ x Hplain);
+         destruct (nothing_below fs _ (under_nodir fs Hwf _ Ed) (spec_segs x) (spec_segs_nonempty x)) as (_ & H1 & H2);
+         rewrite H1, H2; cbn [fst snd];
+         destruct dir; [reflexivity| first [apply IH | reflexivity]].
+  Qed.
+
+  Lemma package_resolve_invalid_name_all dir :
+    is_package_path x = true -> prefixb [ch_hash] x = false ->
+    agree (resolve builtin fs KRequire user dir x) (require_resolve builtin fs user dir x).
+  Proof.
+    intros Hpp Hh. unfold resolve, require_resolve. rewrite Hpp.
+    destruct (builtin x); [reflexivity|].
+    unfold is_package_path in Hpp.
+    destruct (prefixb (s_ "/") x); [discriminate|].
+    destruct (prefixb (s_ "./") x); [discriminate|]. destruct (prefixb (s_ "../") x); [discriminate|].
+    destruct (str_eqb x (s_ ".")); [discriminate|]. destruct (str_eqb x (s_ "..")); [discriminate|].
+    cbn [negb orb]. change (s_ "#") with [ch_hash]. rewrite Hh.
+    unfold load_node_modules. rewrite Hh.
+    unfold load_node_modules_noimports, cjs_package, LOAD_PACKAGE_SELF, name_and_subpath.
+    rewrite parse_package_name_eq_all, Hnone. rewrite (nearest_is_scope fs).
+    assert (Hself : (match package_scope fs (length dir) dir with
+                     | Some (pdir, pk) =>
+                         match exports_of pk with
+                         | Some ex =>
+                             if false && str_eqb (match pk_name pk with Some n => n | None => [] end) []
+                             then Some (esm_resolve fs KRequire user pdir [] ex) else None
+                         | None => None
+                         end
+                     | None => None
+                     end) = None).
+    { destruct (package_scope fs (length dir) dir) as [[pdir pk]|]; [|reflexivity].
+      destruct (exports_of pk); reflexivity. }
+    rewrite Hself.
+    assert (Hspec : (match package_scope fs (length dir) dir with
+                     | Some (scope, pk) =>
+                         match pk_exports pk, pk_name pk, (None : option (str * str)) with
+                         | Some ex, Some n, Some (name, subpath) =>
+                             if str_eqb n name
+                             then Some (RESOLVE_ESM_MATCH fs scope (node_exports_resolve ex subpath (cjs_conds user)) (fun _ => NOut))
+                             else None
+                         | _, _, _ => None
+                         end
+                     | None => None
+                     end) = None).
+    { destruct (package_scope fs (length dir) dir) as [[scope pk]|]; [|reflexivity].
+      destruct (pk_exports pk), (pk_name pk); reflexivity. }
+    rewrite Hspec. apply nm_walk_invalid.
+  Qed.
+End InvalidName.
 
 (* ---- ES-module entry, relative and absolute specifiers: Node does no
    extension search and no directory index; whenever it resolves, esbuild's
